@@ -39,7 +39,7 @@ Example C04_example : rfc_query ex_text.
 Proof. apply in_rfc_sound. vm_compute. reflexivity. Qed.
 
 (* the lexer's regular expressions and ESCAPES in the model are the ones REGENERATED from lex.py on this run *)
-From JP Require Import Proofs.GenTies Gen.LexConst Model.Lex.
+From JP Require Import Proofs.TieLex Proofs.TieParse Gen.LexConst Model.Lex.
 Theorem C04_lexer_tables_regenerated :
   g_RE_WHITESPACE = RE_WHITESPACE /\ g_RE_PROPERTY = RE_PROPERTY /\ g_RE_INDEX = RE_INDEX /\ g_RE_INT = RE_INT /\
   g_RE_FLOAT = RE_FLOAT /\ g_RE_FUNCTION_NAME = RE_FUNCTION_NAME /\ g_ESCAPES = ESCAPES.
